@@ -62,3 +62,20 @@ def run(ctx: Ctx) -> int:
     explore(ctx, ctx.thorough)
     return decide(ctx, lean, LEVEL, search=search, coverage_extra={"rule": RULE},
                   assumptions=["CPython dict/sorted semantics as modelled by key-sorted listings"])
+
+
+def replay(ctx: Ctx, path: str) -> int:
+    import json
+    obj = json.load(open(path))
+    if "ops" not in obj:
+        print(f"replay {path}: no op sequence recorded ({obj.get('kind')}); theorem/correspondence problem: "
+              f"{json.dumps(obj.get('lean_problems', []))[:500]}")
+        return 1
+    seq = [tuple(o) for o in obj["ops"]]
+    sig = st.oracle(seq)
+    if sig is not None:
+        print(f"VIOLATION property=C18 replay={path}")
+        print("reproduced:", sig, st.impl_run(seq)[-3:])
+        return 1
+    print("not reproduced on the current tree")
+    return 0
